@@ -33,6 +33,10 @@ CHECKS = {
          "TLC explores the scanner model (one action per loop iteration of extract_attr / extract_attr_list / ident_exists) on every subset of <=2 (3 thorough) optional keys, all permutations, with and without trailing comma, and checks it returns exactly the written value or nothing. Every arrangement is rendered (4 literal styles, 3 spacings, surrounding attributes, visibilities) and fed to the real attribute functions; a sample is compiled as real derives in a crate living in a sub-directory with the hooked macro, and the recorded events (resolved paths, every option) are validated against the specification with TLC; the derive's tokens equal the library's for the written options.",
          "Trusted: TLC, the renderer of attribute text, syn. Hook: graphql_query_derive::verif (guarded). One representative value per key.",
          "DESIGN.md §5 C18", "model_checking"),
+ "C08": ("TLA+ specification of the two process-wide caches (Cache.tla: one action per critical section, lock, poison) model-checked by TLC for Purity over all call histories and all lock-acquisition interleavings; TLC's histories and schedules replayed on the real hooked library (turn-taking hooks), outcomes compared with fresh-process baselines, and the recorded event traces validated against the specification by TLC (Trace_C08)",
+         "TLC checks Purity, mutual exclusion and cache faithfulness of the design for every history of <=3 (4) calls over a 15-call alphabet (same file under different paths and spellings, same base name with different content, relative paths, missing / unparsable files, wrong extension, SDL vs JSON) and every interleaving of lock acquisitions of 2 (3) threads; with PoisonRecovery = FALSE it produces the poisoned-cache counterexample. The real code runs TLC's histories, TLC's schedules (order of lock acquisitions forced by hooks) and free-running 2..16-thread sets; every outcome must equal the same call alone in a fresh process (4-8 fresh processes per call, which also detects unordered-collection nondeterminism) and every event log must be a behaviour of the specification.",
+         "Trusted: TLC, the event folding in tools/c08.py (structural), the hook in graphql_client_codegen::verif. Bounds as stated; nondeterminism across processes is detected probabilistically.",
+         "DESIGN.md §5 C08", "model_checking"),
 }
 
 
